@@ -220,6 +220,29 @@ def diag_param_batch(S, kernel, b, n, d):
         S.prove_eq(lz.diagonal(dim1=-1, dim2=-2), want, "lazy .diagonal() (kernel batch %d, n %d)" % (b, n))
 
 
+def diag_input_batch(S, kernel, which, b, n, d):
+    """diag=True of an un-batched kernel where only ONE of the two inputs carries a batch dimension (b, also b == n):
+       = diagonals of the full (broadcast) matrix"""
+    k = {"rbf": lambda: K.RBFKernel(), "scale_rq": lambda: K.ScaleKernel(K.RQKernel()), "linear": lambda: K.LinearKernel(),
+         "poly": lambda: K.PolynomialKernel(2), "rbf+linear": lambda: K.RBFKernel() + K.LinearKernel()}[kernel]()
+    for p in k.parameters():
+        p.requires_grad_(False)
+    declare_params(S, k, "p_", scale=0.4)
+    xa = S.randn(n, d, scale=0.7); S.sym_tensor(xa, "x")
+    xb = S.randn(b, n, d, scale=0.7); S.sym_tensor(xb, "z")
+    x1, x2 = (xb, xa) if which == "x1" else (xa, xb)
+    with S.mode():
+        with gpytorch.settings.lazily_evaluate_kernels(False):
+            D = as_sym_arr(SH.get(dense(k(x1, x2)))).copy()
+        want = np.diagonal(D, axis1=-2, axis2=-1)
+        dg = S.must_not_raise("diag=True with a batch dimension (%d,) on %s only" % (b, which), lambda: k(x1, x2, diag=True))
+        S.check_concrete(tuple(dg.shape) == want.shape, "diag=True shape (batch %d on %s only, n %d)" % (b, which, n), "%s vs %s" % (tuple(dg.shape), want.shape))
+        if tuple(dg.shape) == want.shape:
+            S.prove_eq(dg, want, "diag=True = diagonals of the full broadcast matrix (batch %d on %s only, n %d)" % (b, which, n))
+        lz = k(x1, x2)
+        S.prove_eq(lz.diagonal(dim1=-1, dim2=-2), want, "lazy .diagonal() (batch %d on %s only, n %d)" % (b, which, n))
+
+
 def expand_batch(S, kernel):
     """kernel.expand_batch(b): every batch element of the expanded kernel = the original kernel; indexing the expanded kernel (and
        its lazily evaluated matrix) gives the original back - for composite kernels kept in containers too"""
@@ -304,6 +327,10 @@ def scenarios(tier, seed):
     for kern in ("rbf", "scale_rq", "linear", "poly"):
         add("diag_param_batch", kernel=kern, b=3, n=3, d=2)
         add("diag_param_batch", kernel=kern, b=2, n=3, d=1)
+    for i, kern in enumerate(("rbf", "scale_rq", "linear", "poly", "rbf+linear")):
+        add("diag_input_batch", kernel=kern, which=("x2", "x1")[i % 2], b=3, n=3, d=2)
+        if tier != "quick" or i < 2:
+            add("diag_input_batch", kernel=kern, which=("x1", "x2")[i % 2], b=2, n=3, d=1)
     for kern in ("rbf+linear", "rbf*periodic", "scale_rq", "multitask") + (("lcm", "poly", "rbf") if tier != "quick" else ()):
         add("expand_batch", kernel=kern)
     for kern in ("rbf", "rq", "scale_rbf"):
